@@ -457,9 +457,9 @@ func genC02(r *Rand, tier, profile string) *Case {
 	stallAt := -1
 	if r.Bool(0.08) {
 		// the stall begins a little below a segment that the truncation at offset 2000 removes
-		c.Knobs["prefill"] = int64(r.Range(1380, 1480))
-		n = r.Range(640, 760)
-		stallAt = r.Range(0, 15)
+		c.Knobs["prefill"] = int64(r.Range(1400, 1480))
+		n = r.Range(680, 760)
+		stallAt = r.Range(0, 10)
 	}
 	pids := map[int]int{}
 	slowRel := n <= 40 && r.Bool(0.2)
@@ -482,10 +482,13 @@ func genC02(r *Rand, tier, profile string) *Case {
 		}
 		q := 1 + r.Intn(2)
 		if i == stallAt {
-			c.Steps = append(c.Steps, Step{K: "stall", At: 1, C: r.Intn(nsub), I: int64(r.Range(4000, 12000))})
+			// shorter than the first retransmission deadline (3 s, swept up to half a second early):
+			// only the writer waits on the stalled connection, so the order in which things resume is
+			// not left to the Go runtime (longer stalls belong to the controlled scheduler)
+			c.Steps = append(c.Steps, Step{K: "stall", At: 1, C: r.Intn(nsub), I: int64(r.Range(2000, 2400))})
 		}
 		if stallAt >= 0 {
-			gap, pad = int64(r.Range(1, 6)), 0
+			gap, pad = int64(r.Range(1, 4)), 0
 		}
 		c.Steps = append(c.Steps, Step{K: "pub", At: gap, C: p, T: "t/x", S: fmt.Sprintf("m%d", i+1), Q: q, I: int64(pids[p]), J: int64(pad)})
 		if slowRel && q == 2 {
